@@ -32,6 +32,7 @@ import (
 	"path/filepath"
 	"strings"
 	"sync"
+	"time"
 
 	"github.com/jimstudt/http-authentication/basic"
 	"github.com/tmpim/casket/caskethttp/httpserver"
@@ -138,8 +139,16 @@ type Rule struct {
 // PasswordMatcher determines whether a password matches a rule.
 type PasswordMatcher func(pw string) bool
 
+// htpasswdFile is a parsed htpasswd file together with what it
+// looked like on disk when it was read.
+type htpasswdFile struct {
+	matchers map[string]PasswordMatcher
+	modTime  time.Time
+	size     int64
+}
+
 var (
-	htpasswords   map[string]map[string]PasswordMatcher
+	htpasswords   map[string]htpasswdFile
 	htpasswordsMu sync.Mutex
 )
 
@@ -149,21 +158,29 @@ func GetHtpasswdMatcher(filename, username, siteRoot string) (PasswordMatcher, e
 	htpasswordsMu.Lock()
 	defer htpasswordsMu.Unlock()
 	if htpasswords == nil {
-		htpasswords = make(map[string]map[string]PasswordMatcher)
+		htpasswords = make(map[string]htpasswdFile)
 	}
-	pm := htpasswords[filename]
-	if pm == nil {
-		fh, err := os.Open(filename)
-		if err != nil {
-			return nil, fmt.Errorf("open %q: %v", filename, err)
-		}
-		defer fh.Close()
-		pm = make(map[string]PasswordMatcher)
+	fh, err := os.Open(filename)
+	if err != nil {
+		return nil, fmt.Errorf("open %q: %v", filename, err)
+	}
+	defer fh.Close()
+	info, err := fh.Stat()
+	if err != nil {
+		return nil, fmt.Errorf("stat %q: %v", filename, err)
+	}
+	// a file that has been edited since it was read (a user added,
+	// a password changed) is read again: a load sees the file as it is
+	cached, ok := htpasswords[filename]
+	if !ok || !cached.modTime.Equal(info.ModTime()) || cached.size != info.Size() {
+		pm := make(map[string]PasswordMatcher)
 		if err = parseHtpasswd(pm, fh); err != nil {
 			return nil, fmt.Errorf("parsing htpasswd %q: %v", fh.Name(), err)
 		}
-		htpasswords[filename] = pm
+		cached = htpasswdFile{matchers: pm, modTime: info.ModTime(), size: info.Size()}
+		htpasswords[filename] = cached
 	}
+	pm := cached.matchers
 	if pm[username] == nil {
 		return nil, fmt.Errorf("username %q not found in %q", username, filename)
 	}
